@@ -21,7 +21,8 @@ if ! git -C $RR apply $P 2>/dev/null; then
   fi
 fi
 for c in "$@"; do
-  out=$(cd $RV && VERIF_REPO=$RR ./check $c --tier quick 2>&1 | grep -E "^(OK|VIOLATION|KNOWN-FINDING|  [a-z])" | cut -c1-400 | tr '\n' '|')
+  o=$(cd $RV && VERIF_REPO=$RR ./check $c --tier quick 2>&1 | grep -E "^(OK|VIOLATION|KNOWN-FINDING|  [a-z])" | cut -c1-400)
+  out=$( (echo "$o" | grep -E "^(VIOLATION|OK)" | head -2; echo "$o" | grep -E "^  " | head -2; echo "known-findings-printed=$(echo "$o" | grep -c "^KNOWN")") | tr '\n' '|')
   echo "recheck $c: $out" | tee -a $D/confirm.log | cut -c1-300
 done
 git -C $RR reset -q --hard; git -C $RR clean -fdq
